@@ -169,6 +169,7 @@ impl FwProp for C02 {
             real_components: FW_REAL.to_vec(),
             stubbed_components: FW_STUB.to_vec(),
             totality: false,
+            cpu_limit_s: crate::sup::CASE_CPU_LIMIT_S,
             exhaustive: false,
         }
     }
@@ -183,8 +184,7 @@ impl FwProp for C02 {
         // fractions that can bind exactly
         let fr = [0.0, 0.25, 0.5, 0.5, 1.0 / 3.0, 1.0];
         let _ = fr;
-        c
-            .extra
+        c.extra
             .as_object_mut()
             .map(|o| o.insert("single".into(), serde_json::json!(true)));
         c
@@ -348,6 +348,7 @@ impl FwProp for C03 {
             real_components: FW_REAL.to_vec(),
             stubbed_components: FW_STUB.to_vec(),
             totality: false,
+            cpu_limit_s: crate::sup::CASE_CPU_LIMIT_S,
             exhaustive: false,
         }
     }
